@@ -109,6 +109,9 @@ export class Reporter {
         }
       }
       if (k) {
+        // a known finding keeps a replayable case as well (./check <id> --replay replays/<id>/known-*.json)
+        fs.mkdirSync(dir, { recursive: true });
+        fs.writeFileSync(path.join(dir, "known-" + sha(e.key) + ".json"), JSON.stringify({ property: this.property, key: e.key, what: e.what, count: e.count, known_finding: true, case: e.detail }, null, 1));
         knownSeen.push({ key: e.key, count: e.count });
         console.log(`KNOWN-FINDING: property=${this.property} ${k.what} [key=${e.key}] (${e.count} cases)`);
         continue;
